@@ -84,7 +84,9 @@ def values_for(name, pname, default):
         vals.append(('alt%d' % i, a))
     if not (name == 'LFDA' and pname == 'embedding_type'):
         vals += [('sentinel', Sentinel(pname)), ('ndarray', np.arange(6.0).reshape(2, 3)), ('callable', a_callable),
-                 ('int', 3), ('float', 0.375), ('none', None)]
+                 ('int', 3), ('float', 0.375), ('none', None),
+                 # NumPy scalars (what a parameter grid built with np.arange / np.linspace hands over)
+                 ('np.int64', np.int64(3)), ('np.int32', np.int32(2)), ('np.float64', np.float64(0.375)), ('np.bool_', np.bool_(True))]
     return vals
 
 
